@@ -30,6 +30,7 @@ pub struct Shared {
     pub reads: VecDeque<REv>,
     pub wscript: VecDeque<WEv>,
     pub written: Vec<u8>,
+    pub all_written: Vec<u8>,
     pub wcalls: Vec<usize>,
     pub offered: Vec<usize>,
     pub polls: u64,
@@ -68,8 +69,8 @@ impl Write for Transport {
     fn write(&mut self, buf: &[u8]) -> io::Result<usize> {
         let mut s = self.0.lock().unwrap();
         match s.wscript.pop_front() {
-            None => { s.written.extend_from_slice(buf); s.wcalls.push(buf.len()); Ok(buf.len()) },
-            Some(WEv::Accept(k)) => { let n = (k + 1).min(buf.len()); s.written.extend_from_slice(&buf[..n]); s.wcalls.push(n); Ok(n) },
+            None => { s.written.extend_from_slice(buf); s.all_written.extend_from_slice(buf); s.wcalls.push(buf.len()); Ok(buf.len()) },
+            Some(WEv::Accept(k)) => { let n = (k + 1).min(buf.len()); s.written.extend_from_slice(&buf[..n]); s.all_written.extend_from_slice(&buf[..n]); s.wcalls.push(n); Ok(n) },
             Some(WEv::Pending) => Err(io::Error::new(io::ErrorKind::Interrupted, "scripted interrupted")),
             Some(WEv::Fail(k)) => Err(io::Error::new(KINDS[k as usize], "scripted write failure")),
         }
@@ -104,8 +105,8 @@ impl AsyncWrite for Transport {
         let mut s = self.0.lock().unwrap();
         s.polls += 1;
         match s.wscript.pop_front() {
-            None => { s.written.extend_from_slice(buf); s.wcalls.push(buf.len()); Poll::Ready(Ok(buf.len())) },
-            Some(WEv::Accept(k)) => { let n = (k + 1).min(buf.len()); s.written.extend_from_slice(&buf[..n]); s.wcalls.push(n); Poll::Ready(Ok(n)) },
+            None => { s.written.extend_from_slice(buf); s.all_written.extend_from_slice(buf); s.wcalls.push(buf.len()); Poll::Ready(Ok(buf.len())) },
+            Some(WEv::Accept(k)) => { let n = (k + 1).min(buf.len()); s.written.extend_from_slice(&buf[..n]); s.all_written.extend_from_slice(&buf[..n]); s.wcalls.push(n); Poll::Ready(Ok(n)) },
             Some(WEv::Pending) => { cx.waker().wake_by_ref(); Poll::Pending },
             Some(WEv::Fail(k)) => Poll::Ready(Err(io::Error::new(KINDS[k as usize], "scripted write failure"))),
         }
